@@ -364,6 +364,7 @@ qb_util_stopwatch_time_split_get(qb_util_stopwatch_t *sw,
 		return 0;
 	}
 	if (sw->split_options & QB_UTIL_SW_OVERWRITE &&
+	    sw->split_entries > sw->split_size &&
 	    (receint < (sw->split_entries - sw->split_size) ||
 	     older < (sw->split_entries - sw->split_size))) {
 		return 0;
